@@ -242,6 +242,16 @@ def install_stubs(it):
             return crc_fold(0, [byte_to_int(x) for x in b.items])
         return crc_prefix(b, b.n)
     it.stubs[("env.rt", "crc_of")] = crc_of
+
+    def segment7(interp, fv, args, kwargs):
+        from .values import LBytes, binop, compare, ite, byte_to_int, int_to_byte, truth_val
+        b, start = args
+        if isinstance(b, LBytes):
+            return SBytes([int_to_byte(ite(compare("<", binop("+", start, i), b.n), byte_to_int(b.at(binop("+", start, i))), 0))
+                           for i in range(7)], False)
+        sl = interp.getitem(b, slice(start, binop("+", start, 7), None))
+        return SBytes(list(sl.items) + [0] * (7 - len(sl.items)), False)
+    it.stubs[("env.rt", "segment7")] = segment7
     it.stubs.update({("env.rt", "emit"): emit, ("env.rt", "choose_int"): choose_int,
                      ("env.rt", "choose_bool"): choose_bool, ("env.rt", "choose_bytes"): choose_bytes,
                      ("env.rt", "assume"): assume, ("env.rt", "snapshot"): snapshot})
